@@ -119,7 +119,7 @@ class C04(CheckBase):
                    "two-sided NON-interleaved images are excluded by construction: known finding "
                    "C04/two-sided-noninterleaved (a probe is replayed on every run)",
                    "MMB status bytes other than 00/0F/F0/FF are not judged (doc/mmb.5 does not define them)")
-    min_nontrivial = {"quick": 60, "thorough": 600}
+    min_nontrivial = {"quick": 40, "thorough": 600}
     budget_s = {"quick": 40, "thorough": 900}
 
     def strategy(self, tier):
